@@ -84,7 +84,7 @@ register("C09", ["c09", "hazards", "pins"],
          ["prost / quick_protobuf encode and decode the wire format correctly", "reviewed conversions in tables/codec_api.json are value preserving"],
          TRUSTED)
 
-register("C13", ["c13", "hazards"],
+register("C13", ["c13", "hazards", "pins"],
          "Byte-exact delivery over every fragmentation/pending pattern is a composition of poll state machines over time and is NOT decided; tamper evidence is the AEAD inside snow. Decided structural necessary conditions: the framing constants agree (65535 / 16 / 2) and size the buffers; reader and writer agree on the frame format as terms (little-endian u16 prefix of the ciphertext length, completeness test len >= 2+n, decrypt [2..2+n], consume 2+n, compact, expose m bytes; encrypt into capacity[2..], prefix, extend 2+n, clear payload) and every step lies on every path after the cryptographic call's success (post-dominance); the frame buffer is reused only after a completed flush and flush/shutdown go payload -> frame -> inner; errors, zero-byte writes and EOF surface; and the small Buffer type matches its reference transformer method by method.",
          ["snow encrypts/decrypts and authenticates frames as specified (Noise NN, ChaChaPoly)", "AsyncRead/AsyncWrite contracts of the inner stream"],
          TRUSTED)
